@@ -25,24 +25,58 @@ PAYLOADS = {
 # (function, struct) -> fields that need not be compared, with the reason
 EXEMPT_CMP = {
     ('*', T + 'function_pointer::FunctionPointerInput'): ({'name'}, 'parameter names are not part of a fn-pointer type'),
-    (T + 'path_type::PathType::_is_a_resolved_path_type_template_for', T + 'path_type::PathType'):
+    ('template', T + 'path_type::PathType'):
         ({'rustdoc_id'}, 'explicitly destructured as `rustdoc_id: _`: the id is a cache key, path+package identify the type'),
-    (T + 'type_::{impl rustdoc_ir::Type}::_is_a_template_for', T + 'generic::Generic'): ({'name'}, 'the template side binds the name; the concrete side is compared as a whole'),
+    ('template', T + 'generic::Generic'): ({'name'}, 'the template side binds the name; the concrete side is compared as a whole'),
 }
-CMP_FUNCS = {
-    T + 'type_::{impl rustdoc_ir::Type}::_is_a_template_for': [T + 'type_reference::TypeReference', T + 'raw_pointer::RawPointer', T + 'array::Array', T + 'slice::Slice',
-                                             T + 'tuple::Tuple', T + 'function_pointer::FunctionPointer', T + 'function_pointer::FunctionPointerInput'],
-    T + 'type_::{impl rustdoc_ir::Type}::_is_equivalent_to': [T + 'type_reference::TypeReference', T + 'raw_pointer::RawPointer', T + 'array::Array', T + 'slice::Slice',
-                                            T + 'tuple::Tuple', T + 'function_pointer::FunctionPointer', T + 'function_pointer::FunctionPointerInput',
-                                            T + 'generic::Generic'],
-    T + 'path_type::PathType::_is_a_resolved_path_type_template_for': [T + 'path_type::PathType'],
-    T + 'path_type::PathType::_is_equivalent_to': [T + 'path_type::PathType'],
-}
-REBUILD_FUNCS = [T + 'type_::{impl rustdoc_ir::Type}::bind_generic_type_parameters', T + 'type_::{impl rustdoc_ir::Type}::_canonicalize']
+_ALL_CMP = [T + 'type_reference::TypeReference', T + 'raw_pointer::RawPointer', T + 'array::Array', T + 'slice::Slice', T + 'tuple::Tuple',
+            T + 'function_pointer::FunctionPointer', T + 'function_pointer::FunctionPointerInput', T + 'path_type::PathType']
+CMP_FAMILIES = {'template': _ALL_CMP, 'equivalence': _ALL_CMP + [T + 'generic::Generic']}
+REBUILD_FAMILIES = ['bind', 'canonicalize']
 EXEMPT_REBUILD = {
-    (T + 'type_::{impl rustdoc_ir::Type}::_canonicalize', T + 'function_pointer::FunctionPointerInput', 'name'): 'canonical form erases parameter names',
-    (T + 'type_::{impl rustdoc_ir::Type}::_canonicalize', T + 'generic::Generic', 'name'): 'canonical form renames generics (bijectively, via the name map keyed by the old name)',
+    ('canonicalize', T + 'function_pointer::FunctionPointerInput', 'name'): 'canonical form erases parameter names',
+    ('canonicalize', T + 'generic::Generic', 'name'): 'canonical form renames generics (bijectively, via the name map keyed by the old name)',
 }
+
+
+ROOTS = {
+    # public entry points of rustdoc_ir::Type (used by pavexc): stable names. Everything they reach inside the crate is the mechanism.
+    'template': T + 'type_::{impl rustdoc_ir::Type}::is_a_template_for',
+    'equivalence': T + 'type_::{impl rustdoc_ir::Type}::is_equivalent_to',
+    'canonicalize': T + 'type_::{impl rustdoc_ir::Type}::canonicalize',
+    'bind': T + 'type_::{impl rustdoc_ir::Type}::bind_generic_type_parameters',
+}
+_FAM = {}
+
+
+def family_bodies(ctx, name):
+    """bodies (closures included) of every rustdoc_ir item reachable from the public root `name` through resolved calls"""
+    key = (id(ctx.fb), name)
+    if key in _FAM:
+        return _FAM[key]
+    items, calls = {}, {}
+    for b in ctx.fb.bodies(CR):
+        if b.is_promoted:
+            continue
+        items.setdefault(b.nroot, []).append(b)
+        for bb, t in b.calls():
+            for c in (callee(t), t.get('res')):
+                c = strip_generics(c or '')
+                if c.startswith(T):
+                    calls.setdefault(b.nroot, set()).add(c)
+    root = ROOTS[name]
+    seen, work = set(), []
+    if root in items:
+        seen, work = {root}, [root]
+    while work:
+        x = work.pop()
+        for c in calls.get(x, ()):
+            if c in items and c not in seen:
+                seen.add(c)
+                work.append(c)
+    out = [b for it in sorted(seen) for b in items[it]]
+    _FAM[key] = out
+    return out
 
 
 def place_field_reads(pl):
@@ -102,12 +136,13 @@ def is_lifetime_ty(ty):
 
 
 def r1_field_coverage(ctx):
-    ctx.rule('C17.R1', 'P8 field coverage: in each structural comparison (Type::_is_a_template_for, Type::_is_equivalent_to and the PathType '
-             'counterparts, closures included) every field of every payload struct, except lifetime-typed fields and the reasoned exemption '
-             'table, is read from at least two distinct bases (both sides of the comparison).')
-    for fn, structs in CMP_FUNCS.items():
-        bodies = ctx.fb.bodies_of_item(CR, fn)
-        if not ctx.need('C17.R1', fn, bodies):
+    ctx.rule('C17.R1', 'P8 field coverage: in each structural comparison — everything reachable inside rustdoc_ir from the public '
+             'Type::is_a_template_for, respectively Type::is_equivalent_to, closures and helpers included — every field of every payload '
+             'struct, except lifetime-typed fields and the reasoned exemption table, is read from at least two distinct bases (both sides of '
+             'the comparison).')
+    for fam, structs in CMP_FAMILIES.items():
+        bodies = family_bodies(ctx, fam)
+        if not ctx.need('C17.R1', ROOTS[fam], bodies):
             continue
         ctx.count('comparison_bodies', len(bodies))
         reads = field_read_sites(bodies)
@@ -116,7 +151,7 @@ def r1_field_coverage(ctx):
             if not fields:
                 continue
             ex = set()
-            for key in (('*', s), (fn, s)):
+            for key in (('*', s), (fam, s)):
                 if key in EXEMPT_CMP:
                     ex |= EXEMPT_CMP[key][0]
             for fname, fty in fields:
@@ -124,17 +159,12 @@ def r1_field_coverage(ctx):
                     continue
                 sites = reads.get((s, fname), set())
                 n = len(sites)
-                ctx.ob('C17.R1', 'compared|%s|%s.%s' % (fn.split('::')[-1] + '@' + fn.split('::')[-2], s.split('::')[-1], fname), n >= 2,
-                       bodies[0].loc(), '%s.%s is read from %d distinct base(s) in %s (needs both sides)%s'
-                       % (s.split('::')[-1], fname, n, fn, '' if n >= 2 else ': the comparison ignores this field'))
-    # the catch-all arm of the two Type comparisons yields false
-    for fn in (T + 'type_::{impl rustdoc_ir::Type}::_is_a_template_for', T + 'type_::{impl rustdoc_ir::Type}::_is_equivalent_to'):
-        b = ctx.fb.body(CR, fn)
-        if b is None:
-            continue
-        # every switch on the Type discriminant of the *second* level has an `otherwise` that leads to `_0 = false`
-        falses = [bb for bb, j, st in b.all_assigns() if st['lhs'] == {'l': 0} and st['rv']['k'] == 'use' and st['rv']['op'].get('int') == '0']
-        ctx.ob('C17.R1', 'catch-all-false|%s' % fn.split('::')[-1], bool(falses), b.loc(), 'a `false` result exists for mismatching variants: %s' % bool(falses), nontrivial=False)
+                ctx.ob('C17.R1', 'compared|%s|%s.%s' % (fam, s.split('::')[-1], fname), n >= 2,
+                       bodies[0].loc(), '%s.%s is read from %d distinct base(s) in the %s comparison (needs both sides)%s'
+                       % (s.split('::')[-1], fname, n, fam, '' if n >= 2 else ': the comparison ignores this field'))
+        # mismatching variants yield false somewhere in the family
+        falses = [1 for b in bodies for bb, j, st in b.all_assigns() if st['lhs'] == {'l': 0} and st['rv']['k'] == 'use' and st['rv']['op'].get('int') == '0']
+        ctx.ob('C17.R1', 'catch-all-false|%s' % fam, bool(falses), bodies[0].loc(), 'a `false` result exists for mismatching variants: %s' % bool(falses), nontrivial=False)
 
 
 # combinators that can discard (part of) the value they are applied to
@@ -143,13 +173,13 @@ DROPPERS = {'filter', 'filter_map', 'skip', 'skip_while', 'take', 'take_while', 
 
 
 def r2_field_preservation(ctx):
-    ctx.rule('C17.R2', 'P8 field preservation: in bind_generic_type_parameters and _canonicalize every payload struct that is rebuilt takes each '
+    ctx.rule('C17.R2', 'P8 field preservation: in everything reachable from Type::bind_generic_type_parameters and from Type::canonicalize every payload struct that is rebuilt takes each '
              'field from a value derived from the like-named field of a payload of the same struct (copied or recursed into); lifetime '
              'fields and the reasoned exemptions excepted; the value does not pass through a discarding combinator (filter/skip/take/..); '
              'in the arm for variant V the rebuilt Type is variant V.')
-    for fn in REBUILD_FUNCS:
-        bodies = ctx.fb.bodies_of_item(CR, fn)
-        if not ctx.need('C17.R2', fn, bodies):
+    for fn in REBUILD_FAMILIES:
+        bodies = family_bodies(ctx, fn)
+        if not ctx.need('C17.R2', ROOTS[fn], bodies):
             continue
         n_aggs = 0
         for b in bodies:
@@ -168,6 +198,7 @@ def r2_field_preservation(ctx):
                         continue
                     pl = op_place(o)
                     srcs = set()
+                    sl = []
                     if pl is not None:
                         sl, _ = backward_slice(b, pl['l'], defs)
                         for _, _, node in sl:
@@ -177,21 +208,21 @@ def r2_field_preservation(ctx):
                     ok = (s, fname) in srcs
                     droppers = sorted({c.split('::')[-2] + '::' + c.split('::')[-1] for c, _, _ in slice_calls(sl) if c.split('::')[-1] in DROPPERS}) if pl is not None else []
                     if droppers:
-                        ctx.ob('C17.R2', 'not-filtered|%s|%s.%s' % (fn.split('::')[-1], s.split('::')[-1], fname), False, b.loc(bb, st),
+                        ctx.ob('C17.R2', 'not-filtered|%s|%s.%s' % (fn, s.split('::')[-1], fname), False, b.loc(bb, st),
                                'rebuilt %s.%s passes through %s: part of the input value can be dropped on the way' % (s.split('::')[-1], fname, droppers))
-                    # closures read their captured upvars: accept a slice that reaches a closure upvar / argument when the closure body itself
-                    # reads the field (FunctionPointerInput inside `.map(|input| ..)`)
-                    ctx.ob('C17.R2', 'preserved|%s|%s.%s' % (fn.split('::')[-1], s.split('::')[-1], fname), ok, b.loc(bb, st),
+                    ctx.ob('C17.R2', 'preserved|%s|%s.%s' % (fn, s.split('::')[-1], fname), ok, b.loc(bb, st),
                            'rebuilt %s.%s derives from input fields %s%s' % (s.split('::')[-1], fname, sorted(x[0].split('::')[-1] + '.' + x[1] for x in srcs)[:6],
                                                                            '' if ok else ' — not from the like-named input field (dropped / defaulted / swapped)'))
-        ctx.floor('C17.R2', 'payload structs rebuilt in %s' % fn.split('::')[-1], n_aggs, 8)
-        # variant in = variant out
-        main = ctx.fb.body(CR, fn)
-        if main is not None:
-            sws = [x for x in enum_switches(main, T + 'Type')]
-            if ctx.need('C17.R2', 'match on Type in ' + fn, sws):
-                sbb, st = sws[0]
+        ctx.floor('C17.R2', 'payload structs rebuilt by %s' % fn, n_aggs, 8)
+        # variant in = variant out: in every body of the family that matches on Type and builds Type values in the arms
+        n_sw = 0
+        for main in bodies:
+            for sbb, st in enum_switches(main, T + 'Type'):
                 arms = switch_arms(main, sbb)
+                if not any(rv_.get('k') == 'agg' and strip_generics(rv_.get('adt', '')) == T + 'Type'
+                           for blocks in arms.values() for bb in blocks for s2 in main.stmts(bb) for rv_ in [s2.get('rv') or {}]):
+                    continue
+                n_sw += 1
                 for var, blocks in arms.items():
                     built = set()
                     for bb in blocks:
@@ -200,8 +231,9 @@ def r2_field_preservation(ctx):
                             if rv and rv['k'] == 'agg' and rv.get('ak') == 'adt' and strip_generics(rv['adt']) == T + 'Type':
                                 built.add(rv['var'])
                     allowed = {var} | ({'Path', 'TypeAlias'} if var in ('Path', 'TypeAlias') else set())
-                    ctx.ob('C17.R2', 'variant-kept|%s|%s' % (fn.split('::')[-1], var), built <= allowed, main.loc(sbb),
+                    ctx.ob('C17.R2', 'variant-kept|%s|%s' % (fn, var), built <= allowed, main.loc(sbb),
                            'arm %s rebuilds Type variant(s) %s' % (var, sorted(built) or '(clone / binding)'))
+        ctx.floor('C17.R2', 'matches on Type that rebuild Type values in %s' % fn, n_sw, 1)
 
 
 def r3_canonical_constructor(ctx):
@@ -216,7 +248,7 @@ def r3_canonical_constructor(ctx):
             if rv['k'] == 'agg' and rv.get('ak') == 'adt' and strip_generics(rv['adt']) == T + 'type_::CanonicalType':
                 n += 1
                 derived = b.raw.get('impl_trait') in ('core::clone::Clone', 'serde_core::de::Deserialize', 'serde::de::Deserialize') or b.raw.get('exp')
-                ok = b.nroot == T + 'type_::{impl rustdoc_ir::Type}::canonicalize' or derived
+                ok = b.nroot in {x.nroot for x in family_bodies(ctx, 'canonicalize')} or derived
                 ctx.ob('C17.R3', 'constructor|%s' % b.nroot.replace(T, ''), ok, b.loc(bb, st), 'CanonicalType constructed in %s' % b.nroot)
     ctx.floor('C17.R3', 'CanonicalType construction sites', n, 1)
     # outside the crate nobody can construct it: the field is private
@@ -236,24 +268,27 @@ RECURSIVE_TYPES = ('rustdoc_ir::Type', 'rustdoc_ir::path_type::PathType', 'rustd
 def r4_bindings_compared_by_equality(ctx):
     from ..flow import forward_derived
     ctx.rule('C17.R4', 'P1/P3: in the template-matching functions every `bindings.insert(name, ty)` has its previous value compared with '
-             'the new one by structural equality (PartialEq on Type) on every path that goes on to report a match, and those functions never '
+             'the new one by structural equality (PartialEq on Type) on every path that goes on to report a match (wherever in the family reachable from '
+             'Type::is_a_template_for the insert lives: a helper\'s result must be tested by its callers), and those functions never '
              'consult the weaker equivalence relation (a parameter bound twice must be bound to the same type, otherwise substitution '
              'cannot reproduce the concrete type).')
     n = 0
-    for fn in TEMPLATE_FUNCS:
-        bodies = ctx.fb.bodies_of_item(CR, fn)
-        if not ctx.need('C17.R4', fn, bodies):
-            continue
+    fam = family_bodies(ctx, 'template')
+    ctx.need('C17.R4', ROOTS['template'], fam)
+    fam_items = {b.nroot for b in fam}
+    for fn in sorted(fam_items):
+        bodies = [b for b in fam if b.nroot == fn]
         for b in bodies:
             for bb, t in b.calls():
                 c = callee(t) or ''
                 if c.endswith('_is_equivalent_to') or c.endswith('::is_equivalent_to'):
                     ctx.ob('C17.R4', 'weaker-relation|%s' % fn.split('::')[-1], False, b.loc(bb, t),
                            'template matching consults the equivalence-up-to-renaming relation (%s)' % c)
-                if c == 'std::collections::hash::map::HashMap::insert' and len(t['aty']) == 3 and strip_generics(t['aty'][2]) == TY:
+                is_bindings = bool(t['aty']) and 'HashMap<alloc::string::String, rustdoc_ir::Type' in t['aty'][0]
+                if is_bindings and c.split('::')[-1] in ('insert', 'get', 'get_mut', 'remove', 'entry', 'contains_key', 'get_key_value', 'remove_entry'):
                     n += 1
                     d = t['dest']
-                    derived = forward_derived(b, {d['l']}, through_calls=False) if not d.get('p') else set()
+                    derived = forward_derived(b, {d['l']}, through_calls=c.split('::')[-1] != 'insert') if not d.get('p') else set()
                     # payload moved out of the Option (`previous`)
                     cmp_blocks = []
                     for cb, ct in b.calls():
@@ -266,11 +301,20 @@ def r4_bindings_compared_by_equality(ctx):
                                     if locs & derived:
                                         cmp_blocks.append(cb)
                     # on the Some(previous) path every way to leave goes through the comparison
+                    # the branch taken when the parameter already has a binding: Some(previous) / Entry::Occupied / contains_key == true
                     some_targets = []
                     for sb in b.live_blocks():
                         w = b.term(sb)
-                        if w and w['k'] == 'switch' and strip_generics(w.get('enum', '')) == 'core::option::Option' and w['src']['l'] in derived:
-                            some_targets += [tg for nme, tg in w['ts'] if nme == 'Some']
+                        if not w or w['k'] != 'switch':
+                            continue
+                        if 'enum' in w and w['src']['l'] in derived:
+                            e = strip_generics(w['enum'])
+                            if e == 'core::option::Option':
+                                some_targets += [tg for nme, tg in w['ts'] if nme == 'Some'] + ([w['else']] if 'Some' in w.get('rest', []) else [])
+                            elif e.endswith('::Entry'):
+                                some_targets += [tg for nme, tg in w['ts'] if nme == 'Occupied'] + ([w['else']] if 'Occupied' in w.get('rest', []) else [])
+                        elif 'enum' not in w and c.split('::')[-1] == 'contains_key' and op_place(w['d']) is not None and op_place(w['d'])['l'] in derived:
+                            some_targets.append(w['else'])
                     rets = set(b.return_blocks())
                     loop_heads = {hb for hb, ht in b.calls() if callee(ht) == 'core::iter::traits::iterator::Iterator::next'}
                     bad = False
@@ -282,7 +326,21 @@ def r4_bindings_compared_by_equality(ctx):
                     ok = bool(cmp_blocks) and bool(some_targets) and not bad
                     ctx.ob('C17.R4', 'binding-compared|%s|bb-order-%d' % (fn.split('::')[-1], n), ok, b.loc(bb, t),
                            'previous binding compared with the new one by PartialEq on Type (blocks %s) before the match goes on: %s' % (cmp_blocks, ok))
-    ctx.floor('C17.R4', 'bindings.insert sites in the template functions', n, 3)
+    ctx.floor('C17.R4', 'bindings.insert sites in the template family', n, 1)
+    # a helper that records a binding reports a conflict through its result: no caller may drop it
+    for b in fam:
+        for bb, t in b.calls():
+            c = strip_generics(callee(t) or '')
+            if c in fam_items and c != b.nroot and not c.endswith('is_a_template_for') and not c.endswith('_template_for'):
+                hb = [x for x in fam if x.nroot == c]
+                if not any(callee(t2) == 'std::collections::hash::map::HashMap::insert' for x in hb for _, t2 in x.calls()):
+                    continue
+                d = t['dest']
+                der = forward_derived(b, {d['l']}, through_calls=True) if not d.get('p') else set()
+                used = 0 in der or any((b.term(sb) or {}).get('k') == 'switch' and ((b.term(sb).get('src') or {}).get('l') in der or (op_place(b.term(sb).get('d') or {}) or {}).get('l') in der)
+                                       for sb in b.live_blocks())
+                ctx.ob('C17.R4', 'conflict-reported|%s->%s' % (b.nroot.split('::')[-1], c.split('::')[-1]), used, b.loc(bb, t),
+                       'the result of %s (which records a binding and reports a conflicting earlier one) is tested or returned: %s' % (c.split('::')[-1], used))
 
 
 def r5_no_shortcut_around_recursion(ctx):
@@ -291,36 +349,37 @@ def r5_no_shortcut_around_recursion(ctx):
              'the loop head passes through the recursive comparison or the generic-id registration/binding (no fast path that skips '
              'registering nested generics).')
     GA = 'rustdoc_ir::generic_argument::GenericArgument'
-    for fn, must in ((T + 'path_type::PathType::_is_equivalent_to', {T + 'type_::{impl rustdoc_ir::Type}::_is_equivalent_to',
-                                                                       T + 'generics_equivalence::UnassignedIdGenerator::id'}),
-                     (T + 'path_type::PathType::_is_a_resolved_path_type_template_for', {T + 'type_::{impl rustdoc_ir::Type}::_is_a_template_for',
-                                                                                          'std::collections::hash::map::HashMap::insert'})):
-        b = ctx.need('C17.R5', fn, ctx.fb.body(CR, fn))
-        if b is None:
-            continue
-        heads = [hb for hb, ht in b.calls() if callee(ht) == 'core::iter::traits::iterator::Iterator::next']
-        if not ctx.need('C17.R5', 'loop over generic arguments in ' + fn, heads):
-            continue
-        walk = {wb for wb, wt in b.calls() if callee(wt) in must}
-        # entry blocks of the (TypeParameter, TypeParameter) region
-        region = [bb for bb in b.live_blocks() if guard_context(b, bb).get(GA) == {'TypeParameter'}]
-        sw = [sb for sb, st in enum_switches(b, GA)]
-        # blocks of the region that are direct targets of a GenericArgument switch
-        entries = set()
-        for sb in sw:
-            # only second-level switches: the switch itself already sits under a TypeParameter arm (of the other argument)
-            if guard_context(b, sb).get(GA) != {'TypeParameter'}:
+    n = 0
+    for famname, extra in (('equivalence', {T + 'generics_equivalence::UnassignedIdGenerator::id'}), ('template', {'std::collections::hash::map::HashMap::insert'})):
+        fam = family_bodies(ctx, famname)
+        ctx.need('C17.R5', ROOTS[famname], fam)
+        must = {b.nroot for b in fam} | extra
+        for b in fam:
+            sw = [sb for sb, st in enum_switches(b, GA)]
+            region = [bb for bb in b.live_blocks() if guard_context(b, bb).get(GA) == {'TypeParameter'}]
+            entries = set()
+            for sb in sw:
+                # only second-level switches: the switch itself already sits under a TypeParameter arm (of the other argument)
+                if guard_context(b, sb).get(GA) != {'TypeParameter'}:
+                    continue
+                st = b.term(sb)
+                for nme, tg in st['ts']:
+                    if nme == 'TypeParameter' and tg in region:
+                        entries.add(tg)
+            if not entries:
                 continue
-            st = b.term(sb)
-            for nme, tg in st['ts']:
-                if nme == 'TypeParameter' and tg in region:
-                    entries.add(tg)
-        ctx.need('C17.R5', '(TypeParameter, TypeParameter) arm in ' + fn, entries)
-        bad = [e for e in entries if e not in walk and (b.reachable(e, avoid=walk) & set(heads))]
-        # `return false` exits are fine: they never reach the loop head
-        ctx.ob('C17.R5', 'no-shortcut|%s' % fn.split('::')[-1], not bad and bool(entries), b.loc(heads[0]),
-               'from the (TypeParameter, TypeParameter) arm every path to the next iteration passes %s: %s'
-               % (sorted(x.split('::')[-1] for x in must), 'yes' if not bad else 'NO — entry block(s) %s can skip it' % bad))
+            n += 1
+            walk = {wb for wb, wt in b.calls() if strip_generics(callee(wt) or '') in must or strip_generics(wt.get('res') or '') in must}
+            heads = {hb for hb, ht in b.calls() if callee(ht) == 'core::iter::traits::iterator::Iterator::next' and hb in b.reachable(b.succ(hb))}
+            # "goes on to the next pair": the loop head, or — when the per-pair code is a closure handed to all()/try_for_each() — returning
+            # anything but the constant `false`
+            falses = {bb for bb, j, st in b.all_assigns() if st['lhs'] == {'l': 0} and st['rv']['k'] == 'use' and st['rv']['op'].get('int') == '0'}
+            goes_on = heads if heads else set(b.return_blocks())
+            bad = [e for e in entries if e not in walk and (b.reachable(e, avoid=walk | falses) & goes_on)]
+            ctx.ob('C17.R5', 'no-shortcut|%s|%s' % (famname, b.nid.replace(T, '')), not bad, b.loc(sorted(entries)[0]),
+                   'from the (TypeParameter, TypeParameter) arm every path to the next pair of arguments passes the recursive comparison or the '
+                   'generic registration/binding: %s' % ('yes' if not bad else 'NO — entry block(s) %s can skip it' % bad))
+    ctx.floor('C17.R5', 'bodies with a (TypeParameter, TypeParameter) arm', n, 2)
 
 
 def r6_render(ctx):
@@ -394,8 +453,8 @@ def r7_length_before_zip(ctx):
              'the arity test trailing elements of the longer side would be ignored (`Vec<T>` would match `Vec<u8, A>`).')
     n = 0
     LEN = ('alloc::vec::Vec::len', 'core::slice::{impl [T]}::len')
-    for fn in CMP_FUNCS:
-        for b in ctx.fb.bodies_of_item(CR, fn):
+    for b in family_bodies(ctx, 'template') + family_bodies(ctx, 'equivalence'):
+        if True:
             defs = Defs(b)
             lens = {}
             for bb, t in b.calls():
@@ -424,8 +483,8 @@ def r7_length_before_zip(ctx):
                 differ = w['else'] if rv['bop'] == 'Ne' else zero[0]
                 tests.append((bb, differ, srcs[0] | srcs[1]))
             for bb, t in b.calls():
-                if callee(t) != 'core::iter::traits::iterator::Iterator::zip':
-                    continue
+                if callee(t) != 'core::iter::traits::iterator::Iterator::zip' or 'rustdoc_ir::' not in t['aty'][0]:
+                    continue    # only lists of types / generic arguments / fn-pointer inputs
                 n += 1
                 elem = re.sub(r"^.*Iter<'_, |^&alloc::vec::Vec<|>$", '', t['aty'][0])
                 ok = False
